@@ -708,7 +708,7 @@ def run(ctx):
     warnings.filterwarnings("ignore")
     for nm in ("QNSPSAOptimizer", "ShotAdaptiveOptimizer", "RiemannianGradientOptimizer", "AdaptiveOptimizer"):
         ctx.uncovered(nm, "needs shot-based / circuit-growing QNodes; not driven by this check")
-    N = ctx.n(700, 32000)
+    N = ctx.n(700, 8000)
     dev_cache = {}
     indices = range(ctx.shard, N * ctx.nshards, ctx.nshards)
     if ctx.only_case is not None:
